@@ -107,6 +107,7 @@ Definition arg_text_ok (fs : fspell) (k : akind) (a : arg) : bool :=
   | KF32, AFloat raw => (len raw =? 4) && float_ok fs raw
   | KF64, AFloat raw => negb (len raw =? 4) && float_ok fs raw
   | KU32, AInt _ => true
+  | KU8, AInt _ => text_u8_consumes
   | _, _ => false
   end.
 
@@ -136,6 +137,7 @@ Proof.
   all: try (rewrite lex_dec).
   all: cbn [List.app].
   all: try (apply String.eqb_eq in H; subst space; reflexivity).
+  all: try (rewrite H; reflexivity).
   all: try reflexivity.
   all: try (apply andb_true_iff in H; destruct H as [Hl Hf]).
   - (* I32 *) cbn [make_int]. change (2 ^ (32 - 1)) with 2147483648. change (2 ^ 31) with 2147483648 in Hf.
@@ -200,7 +202,8 @@ Definition wf_text (fs : fspell) (i : instr) : bool :=
               end
             else if String.eqb op "call_indirect" then
               match i_args i with
-              | [ARef sp _; ARef sp' tb] => String.eqb sp "type" && String.eqb sp' "table" && (tb =? 0)
+              | [ARef sp _; ARef sp' tb] =>
+                  String.eqb sp "type" && String.eqb sp' "table" && ((tb =? 0) || text_ci_table_first)
               | _ => false
               end
             else if String.eqb op "select" then
@@ -337,6 +340,12 @@ Proof.
     apply Z.eqb_eq in H. now subst a.
 Qed.
 
+Lemma parse_u8_none fs tail : safe tail = true -> parse_operand fs KU8 tail = Ok (AInt 0, tail).
+Proof.
+  intros Hs. cbn [parse_operand]. destruct text_u8_consumes; [|reflexivity].
+  destruct tail as [|[| | |] ?]; try reflexivity. discriminate.
+Qed.
+
 (* the operand part: the parser's argument gathering inverts the writer's argument text *)
 Lemma gather_rt fs i l tail : wf_text fs i = true -> is_block_op (i_op i) = false ->
   instr_args_text fs i = Ok l -> safe tail = true ->
@@ -362,19 +371,31 @@ Proof.
         injection Hl as <-.
         assert (Hci : String.eqb op "call_indirect" = false /\ String.eqb op "select" = false).
         { apply orb_true_iff in Emem. destruct Emem as [E|E]; apply String.eqb_eq in E; subst op; split; reflexivity. }
-        destruct Hci as [-> ->]. reflexivity.
+        destruct Hci as [-> ->]. change (lex (pieces_of []) ++ tail) with tail. cbn [parse_operands]. rewrite (parse_u8_none fs _ Hs). reflexivity.
       * destruct (String.eqb_spec op "call_indirect") as [->|Nci].
         -- destruct args as [|[| |sp ty| | | |] [|[| |sp' tb| | | |] [|? ?]]]; try discriminate.
            apply andb_true_iff in H. destruct H as [H Htb]. apply andb_true_iff in H. destruct H as [Hsp Hsp'].
-           apply String.eqb_eq in Hsp, Hsp'. apply Z.eqb_eq in Htb. subst sp sp' tb.
-           cbn [Z.eqb] in Hl. injection Hl as <-.
-           unfold pieces_of. cbn [map snd group_arg List.concat List.app lex lex_piece].
-           change (lex_word "type") with (TWord "type"). rewrite lex_dec.
-           cbn [parse_ref bind String.eqb Ascii.eqb Bool.eqb].
-           destruct tail as [|[| |w|] tail']; try reflexivity; try discriminate.
-           destruct tail' as [|[| |w|] ?]; try reflexivity. cbn in Hs.
-           apply andb_true_iff in Hs. destruct Hs as [Hs _]. apply andb_true_iff in Hs. destruct Hs as [Hr Hp].
-           apply negb_true_iff in Hr, Hp. now rewrite Hr, Hp.
+           apply String.eqb_eq in Hsp, Hsp'. subst sp sp'.
+           assert (Htail : forall b : bool,
+                     match tail with
+                     | TLpar :: TWord w' :: _ =>
+                         if String.eqb w' "param" || String.eqb w' "result" then Internal NotImplemented
+                         else Ok ([ARef "type" ty; ARef "table" tb], tail)
+                     | _ => Ok ([ARef "type" ty; ARef "table" tb], tail)
+                     end = Ok ([ARef "type" ty; ARef "table" tb], tail)).
+           { intros _. destruct tail as [|[| |w|] tail']; try reflexivity; try discriminate.
+             destruct tail' as [|[| |w|] ?]; try reflexivity. cbn in Hs.
+             apply andb_true_iff in Hs. destruct Hs as [Hs _]. apply andb_true_iff in Hs. destruct Hs as [Hr Hp].
+             apply negb_true_iff in Hr, Hp. now rewrite Hr, Hp. }
+           destruct (Z.eqb_spec tb 0) as [->|Ntb].
+           ++ injection Hl as <-.
+              unfold pieces_of. cbn [map snd group_arg List.concat List.app lex lex_piece].
+              change (lex_word "type") with (TWord "type"). rewrite lex_dec.
+              cbn [parse_ref bind String.eqb Ascii.eqb Bool.eqb]. exact (Htail true).
+           ++ cbn [orb] in Htb. rewrite Htb in Hl. injection Hl as <-.
+              unfold pieces_of. cbn [map snd group_arg word_arg List.concat List.app lex lex_piece].
+              change (lex_word "type") with (TWord "type"). rewrite !lex_dec.
+              cbn [parse_ref bind String.eqb Ascii.eqb Bool.eqb]. exact (Htail true).
         -- destruct (String.eqb_spec op "select") as [->|Nsel].
            ++ destruct args as [|[| | | | |ts|] [|? ?]]; try discriminate. injection Hl as <-.
               rewrite (result_list_rt ts tail _ Hs H).
@@ -537,18 +558,23 @@ Qed.
 
 (* ------------------------------------------------------------------ refuted rows *)
 (* operands of kind U8 other than memory.size / memory.grow are printed but not read back *)
-Lemma text_u8_operand_refuted fs :
+Lemma text_u8_operand_refuted fs : text_u8_consumes = false ->
   exists ps, print_instr fs (Instr "memory.fill" [AInt 0]) = Ok ps /\
              parse_instr fs (lex ps) = Ok (Instr "memory.fill" [AInt 0], [TInt 0]).
-Proof. exists [PW "memory.fill"; PW "0"]. split; vm_compute; reflexivity. Qed.
+Proof.
+  intros H. vm_compute in H.
+  first [discriminate H | exists [PW "memory.fill"; PW "0"]; split; vm_compute; reflexivity].
+Qed.
 
 (* call_indirect on a table other than 0 is printed as "(const.i64 n)", which the parser rejects *)
-Lemma text_call_indirect_table_refuted fs :
+Lemma text_call_indirect_table_refuted fs : text_ci_table_first = false ->
   exists ps, print_instr fs (Instr "call_indirect" [ARef "type" 0; ARef "table" 1]) = Ok ps /\
              parse_instrs fs 10 (lex ps) = Diag 12.
 Proof.
-  exists [PW "call_indirect"; PL; PW "type"; PW "0"; PR; PL; PW "const.i64"; PW "1"; PR].
-  split; vm_compute; reflexivity.
+  intros H. vm_compute in H.
+  first [discriminate H
+        | exists [PW "call_indirect"; PL; PW "type"; PW "0"; PR; PL; PW "const.i64"; PW "1"; PR];
+          split; vm_compute; reflexivity].
 Qed.
 
 (* two different constants with the same spelling (every NaN is printed "nan") cannot both be read back *)
